@@ -161,7 +161,12 @@ for _p, _src in (("C02", "C13"), ("C03", "C13"), ("C04", "C15")):
     registry.PROPS[_p]["rules"] += [x for x in registry.PROPS[_src]["rules"] if x not in registry.PROPS[_p]["rules"]]
 # "epoch bits invisible" (C11) covers the exchanges: a difference in the stamp alone must not surface as a failure;
 # the handle that repin takes is what keeps a guard-only participant (C20) from being finalized mid-repin
-for _p, _rules in (("C11", ["CAS-EPOCH-BLIND"]), ("C20", ["EBR-REACTIVATE"])):
+# "a pinned participant sees at most one advance" (C14) needs that its epoch is never re-published while a guard lives:
+# who may call repin_without_collect, the repin sequence, and the outermost-only clearing
+for _p, _rules in (("C11", ["CAS-EPOCH-BLIND"]), ("C20", ["EBR-REACTIVATE"]), ("C19", ["BIT-TAGGED"]),
+                   ("C02", ["CW-UPGRADE-TRACE", "OWN-PRIMITIVES", "LINK-TAG"]), ("C05", ["CW-UPGRADE-TRACE"]),
+                   ("C12", ["OWN-PRIMITIVES", "LINK-TAG"]),
+                   ("C14", ["EBR-COLLECT-OUTERMOST", "EBR-REACTIVATE", "EBR-GUARD-COUNT"])):
     registry.PROPS[_p]["rules"] += [x for x in _rules if x not in registry.PROPS[_p]["rules"]]
 for _p, _rules in (("C01", ["CW-ALLOC-INIT", "CW-DEFER-WRAPPER"]), ("C02", ["EBR-DEFAULT-COLLECTOR", "CW-DEFER-WRAPPER"]),
                    ("C03", ["CW-ALLOC-INIT", "CW-DEFER-WRAPPER"]), ("C04", ["CW-ALLOC-INIT"]), ("C10", ["CW-ALLOC-INIT"]),
